@@ -363,6 +363,119 @@ func c17(p *model.Prog, r *report.Result) {
 		r.Check(ok, "C17.R5", fkey(ssp, "decides", "hasInSession=>false"), p.InstrPos(ci), "an accepted input forbids a pull", "a pull may start although the stream has an input")
 	}
 
+	// boundary classes of the rule inputs (embedded specification: a retry budget n >= 0 allows
+	// the first attempt plus n retries, a negative budget retries forever; auto-stop < 0 never,
+	// == 0 immediately, > 0 after that many ms)
+	retryF := p.Field("pkg/logic", "pullProxy", "pullRetryNum")
+	startCountF := p.Field("pkg/logic", "pullProxy", "startCount")
+	isBudgetCmp := func(in ssa.Instruction) bool {
+		iff, ok := in.(*ssa.If)
+		if !ok {
+			return false
+		}
+		cmp, ok := iff.Cond.(*ssa.BinOp)
+		if !ok {
+			return false
+		}
+		return (model.IsLoadOfField(cmp.X, startCountF) && model.IsLoadOfField(cmp.Y, retryF)) || (model.IsLoadOfField(cmp.Y, startCountF) && model.IsLoadOfField(cmp.X, retryF))
+	}
+	nB := 0
+	for _, b := range ssp.Blocks {
+		iff, ok := b.Instrs[len(b.Instrs)-1].(*ssa.If)
+		if !ok {
+			continue
+		}
+		if x, k, op, right, ok := constCmp(iff.Cond); ok && model.IsLoadOfField(x, retryF) && k == 0 {
+			nB++
+			edge := func(v int64) *ssa.BasicBlock {
+				if cmpAt(op, v, k, right) {
+					return b.Succs[0]
+				}
+				return b.Succs[1]
+			}
+			at0 := model.PathQuery{FromBlock: edge(0), Target: isBudgetCmp}.Find(ssp) != nil
+			atNeg := model.PathQuery{FromBlock: edge(-1), Target: isBudgetCmp}.Find(ssp) != nil
+			r.Check(at0 && !atNeg, "C17.R5", fkey(ssp, "boundary", "pullRetryNum==0 is a budget, <0 is forever"), p.InstrPos(iff),
+				"budget 0 is checked against startCount, negative budgets are not", "the retry budget boundary is misplaced: a budget of 0 ('never retry') is treated as 'retry forever' (or a negative budget is limited)")
+		}
+		if isBudgetCmp(iff) {
+			nB++
+			cmp := iff.Cond.(*ssa.BinOp)
+			op := cmp.Op
+			if model.IsLoadOfField(cmp.Y, startCountF) { // retry OP startCount -> startCount OP' retry
+				switch op {
+				case token.LSS:
+					op = token.GTR
+				case token.LEQ:
+					op = token.GEQ
+				case token.GTR:
+					op = token.LSS
+				case token.GEQ:
+					op = token.LEQ
+				}
+			}
+			// the refusing edge is the one that returns false; at startCount == budget the start is still allowed
+			refuseAtEq := cmpAt(op, 5, 5, true)
+			refuseAbove := cmpAt(op, 6, 5, true)
+			var refuseEdge *ssa.BasicBlock
+			if refuseAbove {
+				refuseEdge = b.Succs[0]
+			} else {
+				refuseEdge = b.Succs[1]
+			}
+			refuses := false
+			if ret, ok := (model.PathQuery{FromBlock: refuseEdge, Target: func(x ssa.Instruction) bool { _, o := x.(*ssa.Return); return o }}).Find(ssp).(*ssa.Return); ok {
+				if v, isc := model.ConstBool(model.ReturnValues(ret)[0]); isc && !v {
+					refuses = true
+				}
+			}
+			r.Check(refuseAbove && !refuseAtEq && refuses, "C17.R5", fkey(ssp, "boundary", "startCount vs pullRetryNum"), p.InstrPos(iff),
+				"refused exactly when startCount exceeds the budget", "the retry budget is off by one (or never enforced): n retries must allow n+1 attempts in total")
+		}
+	}
+	if nB < 2 {
+		r.Bad("C17.R5", fkey(ssp, "boundary", "floor"), p.Pos(ssp.Pos()), "retry budget comparisons not found")
+	}
+	autoF := p.Field("pkg/logic", "pullProxy", "autoStopPullAfterNoOutMs")
+	nA := 0
+	for _, b := range sasp.Blocks {
+		iff, ok := b.Instrs[len(b.Instrs)-1].(*ssa.If)
+		if !ok {
+			continue
+		}
+		x, k, op, right, ok := constCmp(iff.Cond)
+		if !ok || !model.IsLoadOfField(x, autoF) || k != 0 {
+			continue
+		}
+		nA++
+		retOn := func(v int64) (bool, bool) { // (returns a constant, its value) on the edge taken for v
+			e := b.Succs[1]
+			if cmpAt(op, v, k, right) {
+				e = b.Succs[0]
+			}
+			first := e.Instrs[len(e.Instrs)-1]
+			if ret, ok := first.(*ssa.Return); ok {
+				if val, isc := model.ConstBool(model.ReturnValues(ret)[0]); isc {
+					return true, val
+				}
+			}
+			return false, false
+		}
+		switch op {
+		case token.LSS, token.GEQ: // the "never" test
+			cNeg, vNeg := retOn(-1)
+			c0, _ := retOn(0)
+			r.Check(cNeg && !vNeg && !c0, "C17.R5", fkey(sasp, "boundary", "autoStop<0 never"), p.InstrPos(iff), "negative means never, 0 does not", "the auto-stop 'never' boundary is misplaced: 0 ('stop immediately') is treated as never, or a negative value as a timeout")
+		case token.EQL, token.NEQ:
+			c0, v0 := retOn(0)
+			c1, _ := retOn(1)
+			r.Check(c0 && v0 && !c1, "C17.R5", fkey(sasp, "boundary", "autoStop==0 immediately"), p.InstrPos(iff), "0 stops immediately, positive values wait", "auto-stop 0 no longer stops immediately (or positive values do)")
+		}
+	}
+	if nA < 2 {
+		r.Bad("C17.R5", fkey(sasp, "boundary", "floor"), p.Pos(sasp.Pos()), "auto-stop boundary comparisons not found")
+	}
+
 	// ---------------------------------------------------------------- R6
 	r.Rule("C17.R6", "rtmp.Buffer.grow: the new capacity is produced by a loop that exits only when newLen-Len() >= n, so Write/WriteByte never index past the buffer whatever the length of the relayed URL parameters")
 	grow := p.Method("pkg/rtmp", "Buffer", "grow")
